@@ -41,7 +41,8 @@ class World:
         S = self.S
         # raw catalogs: entries [k, m, kind] kind: "in" | "outside" | "below" | "early"
         self.raw = []
-        for ci, cat in enumerate(case["cats"]):
+        all_cats = case["cats"] * case.get("repeat", 1)      # "repeat": many synthetic catalogs
+        for ci, cat in enumerate(all_cats):
             evs = []
             for j, (k, m, kind) in enumerate(cat):
                 e = list(S.event(j, k, m))
@@ -58,7 +59,7 @@ class World:
         self.filters = ["magnitude >= %r" % S.edges[0], "origin_time >= %d" % T_CUT] if self.flt else []
         # reference model: filters applied exactly once
         self.model = []
-        for ci, cat in enumerate(case["cats"]):
+        for ci, cat in enumerate(all_cats):
             keep = []
             for ev, (k, m, kind) in zip(self.raw[ci], cat):
                 if self.flt and kind in ("below", "early"):
@@ -292,7 +293,8 @@ def cases(draw):
     if not any(k == "in" for c in cats for _, _, k in c):
         cats[0].append([0, 0, "in"])
     ops = draw(st.lists(st.sampled_from(OPS), min_size=1, max_size=8))
-    return {"setup": setup, "cats": cats, "config": list(config), "ops": ops, "verbose": draw(st.integers(0, 3)) == 0}
+    return {"setup": setup, "cats": cats, "config": list(config), "ops": ops, "verbose": draw(st.integers(0, 3)) == 0,
+            **({"repeat": draw(st.sampled_from([20, 40]))} if draw(st.integers(0, 11)) == 0 else {})}
 
 
 def run_machine(ctx, max_examples, steps):
